@@ -98,6 +98,9 @@ struct CamScript
     int fail_start = 0;
     int fail_set = 0;
     int fail_stop = 0; // the next stop() stops the camera but reports an error
+    // first hardware frame id of every run (a camera need not count from 0;
+    // kept below 2^39: the mock's timestamps carry the id in their low bits)
+    int64_t hw_base = 0;
 };
 
 struct CamState
@@ -459,7 +462,7 @@ install_hooks()
         }
         c.running = true;
         c.acq = W->acq_id;
-        c.hw_next = 0;
+        c.hw_next = (uint64_t)c.script.hw_base;
         c.calls = 0;
         c.triggers_pending = 0;
         c.next_time = now_ns();
@@ -1286,6 +1289,19 @@ struct RtHarness : Harness
             while (c.type == SampleType_f32)
                 c.type = types[g.below(8)];
             c.n = (uint64_t)g.range(1, 5 * c.avg);
+            if (g.chance(0.04)) {
+                // a window far longer than the acquisition (and wider than
+                // 16 bits): no complete window, at most the trailing frame
+                c.avg = 65536 + (int)g.range(0, 4);
+                c.n = (uint64_t)g.range(1, 20);
+            }
+        }
+        if (g.chance(0.12)) {
+            // hardware frame ids that do not start at 0: around 2^32, or large
+            static const int64_t bases[] = { (1ll << 32) - 3, 1ll << 32,
+                                             (1ll << 32) + 12345,
+                                             (1ll << 39) - 1000, 1000000007ll };
+            c.cs.hw_base = bases[g.below(5)];
         }
         if (faults) {
             int k = (int)g.below(10);
@@ -1308,14 +1324,14 @@ struct RtHarness : Harness
                  "cfg s=%d cam=%s sto=%s n=%lld w=%d h=%d t=%d avg=%d delay=%lld "
                  "exp=%lld trig=%d gapat=%lld zeroat=%lld failframe=%lld "
                  "failappend=%lld slow=%lld failcamstart=%d failstostart=%d "
-                 "failset=%d failcamstop=%d",
+                 "failset=%d failcamstop=%d hwbase=%lld",
                  s, c.cam.c_str(), c.sto.c_str(),
                  c.n == INF_FRAMES ? -1ll : (long long)c.n, c.w, c.h, c.type,
                  c.avg, (long long)c.delay_us, (long long)c.cs.exposure_us,
                  c.trig, (long long)c.cs.gap_at, (long long)c.cs.zero_at,
                  (long long)c.cs.fail_frame, (long long)c.ss.fail_append,
                  (long long)c.ss.slow_us, c.cs.fail_start, c.ss.fail_start,
-                 c.cs.fail_set, c.cs.fail_stop);
+                 c.cs.fail_set, c.cs.fail_stop, (long long)c.cs.hw_base);
         return b;
     }
 
@@ -1674,6 +1690,7 @@ struct RtHarness : Harness
         c.cs.fail_start = (int)op.i("failcamstart", 0);
         c.cs.fail_set = (int)op.i("failset", 0);
         c.cs.fail_stop = (int)op.i("failcamstop", 0);
+        c.cs.hw_base = op.i("hwbase", 0);
         c.ss.fail_append = op.i("failappend", -1);
         c.ss.slow_us = op.i("slow", 0);
         c.ss.fail_start = (int)op.i("failstostart", 0);
